@@ -49,7 +49,7 @@ prop("C09",
 
 prop("C03",
      rule="generated well-formed documents with duplicates allowed (1/10 mutated: every driver must reject) x 11 parse drivers (in-place from_slice/from_str, copying parser as Vec element / struct field / map value / second stream document / Bytes carrier, use_rawnumber, utf8_lossy on valid text, clone) + alignment sweep of one document behind 0..69 spaces; canonical tree dump (kinds, order, duplicates, decoded strings, number class and bits) compared with the dump of the reference parse; hook Meta pack/unpack on random and boundary words",
-     unit_ops={"metapack", "t2"}, funcs=True,
+     unit_ops={"metapack", "t2", "domevents"}, funcs=True,
      assumptions=["numbers are classified and valued by Spec/Num.v (decimal value, round half even); its agreement with Rust's parser is C07's subject"])
 prop("C06",
      feature_builds=["sort_keys", "arbitrary_precision"],
